@@ -82,6 +82,11 @@ def build(rng, mask, i, hostile_mode=False, use_alias=False):
     if i % 13 == 0:
         s["instance_id"] = "uid"
     f.settings = s
+    if i % 5 == 3:
+        # an entity declaration adds its own namespace to whatever the namespaces setting declares - it must not displace any of them
+        f.entities = {"list_name": f"ents{i}", "label": "concat('a', 'b')"}
+        exp["namespaces"] = dict(exp.get("namespaces", {}), entities="http://www.opendatakit.org/xforms/entities")
+        exp["entity"] = True
     return f, exp
 
 
@@ -215,7 +220,7 @@ def run_case(ctx, rng, mask, i, channel, argmode, hostile_mode, use_alias):
     # meta
     meta = p.resolve(f"/{want_root}/meta")
     names = [xf.local(c.tag) for c in meta[0]] if meta else []
-    want_meta = ([] if exp.get("omit_instanceID") else ["instanceID"]) + (["instanceName"] if "instance_name" in exp else [])
+    want_meta = ([] if exp.get("omit_instanceID") else ["instanceID"]) + (["instanceName"] if "instance_name" in exp else []) + (["entity"] if exp.get("entity") else [])
     cmp("meta-children", names, want_meta)
     binds = {b.get("nodeset"): b for b in p.binds()}
     if "instance_name" in exp:
